@@ -332,3 +332,255 @@ def shared_state_rule(prog, run, rule, quals, what="the result of a call depends
         if not bad:
             run.ob(rule, fi.qual, "no lasting effect on module / class level tables", True, f"{len(effs)} container effects, none on a module / class level table", file=f, node=fi.node)
     run.extra[rule + "_effects_examined"] = n_eff
+
+
+# ----------------------------------------------------------------------------- results kept on the instance (memo methods)
+def _self_root(e):
+    """'self.a' for an attribute chain rooted at self (self.a.b[c] -> 'self.a'); None otherwise"""
+    chain = []
+    while isinstance(e, (ast.Attribute, ast.Subscript, ast.Call)):
+        if isinstance(e, ast.Attribute):
+            chain.append(e.attr)
+            e = e.value
+        elif isinstance(e, ast.Subscript):
+            e = e.value
+        else:
+            e = e.func
+    if isinstance(e, ast.Name) and e.id == "self" and chain:
+        return "self." + chain[-1]
+    return None
+
+
+def memo_shapes(prog, m):
+    """[(kept attribute X, node of the store, validity expressions, attributes the kept value depends on)] for a method that keeps a
+    computed value on the instance and hands it out again: `self.X[key] = v` / `self.X = (key, v)` together with a look-up of self.X
+    whose result is returned.  Validity = what is compared before the kept value is handed out (the key; further conjuncts of the test)."""
+    node = m.node
+    alias = {}          # local name -> kept attribute
+    for a in ast.walk(node):
+        if isinstance(a, ast.Assign) and len(a.targets) == 1 and isinstance(a.targets[0], ast.Name):
+            v = a.value
+            if isinstance(v, ast.Attribute) and isinstance(v.value, ast.Name) and v.value.id == "self":
+                alias[a.targets[0].id] = v.attr
+            elif isinstance(v, ast.Call) and isinstance(v.func, ast.Attribute) and v.func.attr in ("setdefault", "get") and astq.src(v.func.value) == "self.__dict__" \
+                    and v.args and isinstance(v.args[0], ast.Constant) and isinstance(v.args[0].value, str):
+                alias[a.targets[0].id] = v.args[0].value
+            elif isinstance(v, ast.Call) and isinstance(v.func, ast.Name) and v.func.id == "getattr" and len(v.args) >= 2 and astq.src(v.args[0]) == "self" \
+                    and isinstance(v.args[1], ast.Constant):
+                alias[a.targets[0].id] = v.args[1].value
+
+    def kept_attr(e):
+        if isinstance(e, ast.Attribute) and isinstance(e.value, ast.Name) and e.value.id == "self":
+            return e.attr
+        if isinstance(e, ast.Name) and e.id in alias:
+            return alias[e.id]
+        return None
+    out = []
+    for st in ast.walk(node):
+        if not isinstance(st, ast.Assign) or len(st.targets) != 1:
+            continue
+        t = st.targets[0]
+        X = key = None
+        if isinstance(t, ast.Subscript) and kept_attr(t.value):
+            X, key = kept_attr(t.value), t.slice
+        elif isinstance(t, ast.Attribute) and kept_attr(t) and isinstance(st.value, ast.Tuple) and len(st.value.elts) >= 2:
+            X, key = kept_attr(t), st.value.elts[0]
+        if X is None:
+            continue
+        # a look-up of the same attribute that is handed out
+        reads = [r for r in ast.walk(node) if r is not t and kept_attr(r) == X and isinstance(getattr(r, "ctx", None), ast.Load)]
+        rets = [r for r in ast.walk(node) if isinstance(r, ast.Return) and r.value is not None]
+        if not reads or not rets:
+            continue
+        # validity: the key, and every test that guards a return of something read from X
+        valid = [astq.expr_at(m, st, key)]
+        names_from_X = set(n_ for n_, a_ in alias.items() if a_ == X)
+        for a in ast.walk(node):
+            if isinstance(a, ast.Assign) and len(a.targets) == 1 and isinstance(a.targets[0], ast.Name) and any(kept_attr(x) == X for x in ast.walk(a.value)):
+                names_from_X.add(a.targets[0].id)
+        for i in ast.walk(node):
+            if isinstance(i, ast.If) and any(isinstance(x, ast.Name) and x.id in names_from_X for x in ast.walk(i.test)):
+                valid.append(astq.expr_at(m, i, i.test))
+        deps = set()
+        for x in ast.walk(node):
+            if isinstance(x, ast.Attribute) and isinstance(x.ctx, ast.Load):
+                r_ = _self_root(x)
+                if r_ and r_ not in ("self." + X, "self.__dict__", "self.name", "self.__class__") and not _in_logging(node, x):
+                    deps.add(r_)
+        out.append((X, st, valid, deps))
+    return out
+
+
+def _in_logging(fn_node, x):
+    for c in ast.walk(fn_node):
+        if isinstance(c, ast.Call) and isinstance(c.func, ast.Attribute) and isinstance(c.func.value, ast.Name) and c.func.value.id in ("logger", "logging", "warnings") \
+                and any(y is x for y in ast.walk(c)):
+            return True
+    return False
+
+
+def memo_rule(prog, run, rule, mod_prefixes, what="a later call works with a result computed for a state that is gone"):
+    """a method that keeps its result on the instance hands it out again only while everything the result was computed from is the
+    same: an attribute of the instance it reads (self.fs, self.data) is either part of the validity test (the key, an identity test), or
+    every method that replaces that attribute discards what was kept"""
+    from .program import rel
+    n = 0
+    for ci in prog.classes.values():
+        if not ci.mod.startswith(tuple(mod_prefixes)):
+            continue
+        for m in ci.methods.values():
+            for X, st, valid, deps in memo_shapes(prog, m):
+                f = rel(prog.mods[m.mod].path)
+                vtxt = " ".join(astq.src(v, 4000) for v in valid)
+                missing = sorted(d for d in deps if d not in vtxt)
+                # the classes whose instances run this method, and among their methods those that replace a missing attribute
+                users = [c2 for c2 in prog.classes.values() if ci in prog.mro(c2) and any(
+                    isinstance(c, ast.Call) and isinstance(c.func, ast.Attribute) and c.func.attr == m.node.name and astq.src(c.func.value) in ("self", "super()")
+                    for k in prog.mro(c2) for mm in k.methods.values() for c in ast.walk(mm.node))]
+                bad = []
+                for A in missing:
+                    attr = A[5:]
+                    for c2 in users:
+                        seen = set()
+                        for k in prog.mro(c2):
+                            for mm in k.methods.values():
+                                if mm.node.name in seen:
+                                    continue
+                                seen.add(mm.node.name)
+                                sets_A = [a for a in ast.walk(mm.node) if isinstance(a, (ast.Assign, ast.AugAssign, ast.AnnAssign)) and any(
+                                    isinstance(t_, ast.Attribute) and astq.src(t_) == A for tt in (a.targets if isinstance(a, ast.Assign) else [a.target])
+                                    for t_ in (tt.elts if isinstance(tt, (ast.Tuple, ast.List)) else [tt]))]
+                                if not sets_A:
+                                    continue
+                                resets = _resets(prog, k, mm, X, 2)
+                                if not resets and _foreign_reset(prog, X, mm.node.name):
+                                    resets = True       # whoever calls the replacing method from outside gives the object a new self.X in the same breath
+                                if not resets:
+                                    bad.append((A, mm, sets_A[0], c2))
+                n += 1
+                if bad:
+                    A, mm, a_, c2 = bad[0]
+                    run.ob(rule, m.qual, f"self.{X} is kept only while what it was computed from is the same", False,
+                           f"`{astq.src(st, 60)}`: handed out again when `{astq.src(valid[-1], 60)}`; the kept value also depends on {A}, which "
+                           f"{mm.qual.split('.')[-2]}.{mm.node.name} replaces (`{astq.src(a_, 50)}`) without discarding self.{X} - {what}",
+                           witness=f"{A} replaced in {mm.node.name}", file=f, node=st)
+                else:
+                    run.ob(rule, m.qual, f"self.{X} is kept only while what it was computed from is the same", True,
+                           f"`{astq.src(st, 60)}`: depends on {sorted(deps)}; " + ("all part of the validity test" if not missing else f"{missing} replaced only together with self.{X}"),
+                           file=f, node=st)
+    if not n:
+        run.ob(rule, mod_prefixes[0], "kept results", True, "no method keeps a computed result on the instance")
+
+
+def _foreign_reset(prog, X, mname):
+    """some function of the package assigns `<obj>.X = ..` and calls `<obj>.<mname>(..)` on the same object (the owner of the objects
+    manages the kept value together with the replaced attribute)"""
+    for g in prog.functions.values():
+        objs = set()
+        for a in ast.walk(g.node):
+            if isinstance(a, ast.Assign):
+                for t_ in a.targets:
+                    if isinstance(t_, ast.Attribute) and t_.attr == X and not (isinstance(t_.value, ast.Name) and t_.value.id == "self"):
+                        objs.add(astq.src(t_.value))
+        if objs and any(isinstance(c, ast.Call) and isinstance(c.func, ast.Attribute) and c.func.attr == mname and astq.src(c.func.value) in objs for c in ast.walk(g.node)):
+            return True
+    return False
+
+
+def _resets(prog, ci, mm, X, depth):
+    """method mm (of class ci) assigns / clears self.X, itself or through a method it calls on self"""
+    for a in ast.walk(mm.node):
+        if isinstance(a, (ast.Assign, ast.AnnAssign)) and any(isinstance(t_, ast.Attribute) and astq.src(t_) == "self." + X for t_ in (a.targets if isinstance(a, ast.Assign) else [a.target])):
+            return True
+        if isinstance(a, ast.Call) and isinstance(a.func, ast.Attribute) and a.func.attr in ("clear", "pop") and astq.src(a.func.value) == "self." + X:
+            return True
+        if isinstance(a, ast.Call) and isinstance(a.func, ast.Attribute) and a.func.attr in ("pop", "__delitem__") and astq.src(a.func.value) == "self.__dict__" \
+                and a.args and isinstance(a.args[0], ast.Constant) and a.args[0].value == X:
+            return True
+    if depth > 0:
+        for c in ast.walk(mm.node):
+            if isinstance(c, ast.Call) and isinstance(c.func, ast.Attribute) and astq.src(c.func.value) in ("self", "super()"):
+                callee = prog.find_method(ci, c.func.attr)
+                if callee is not None and callee.node is not mm.node and _resets(prog, ci, callee, X, depth - 1):
+                    return True
+    return False
+
+
+# ----------------------------------------------------------------------------- in-place operation on a local that is also known by another name
+def alias_inplace_rule(prog, run, rule, quals):
+    """`b = a` (also as one arm of `b = a if c else f()` / inside a tuple that is unpacked) makes b and a one object; an in-place
+    operation on one of them (b /= n, np.f(.., out=b), b[..] = v) changes the other as well.  A violation when the other name is read
+    afterwards (or is operated on in place as well: the operation is then applied twice to the same array)."""
+    from .program import rel
+    n = 0
+    for q in quals:
+        fi = prog.functions.get(q)
+        if fi is None:
+            continue
+        f = rel(prog.mods[fi.mod].path)
+        pairs = {}          # name -> {(other name, assignment node)}
+        for a in ast.walk(fi.node):
+            if not (isinstance(a, ast.Assign) and len(a.targets) == 1):
+                continue
+            t, v = a.targets[0], a.value
+            arms = [v.body, v.orelse] if isinstance(v, ast.IfExp) else [v]
+            for arm in arms:
+                if isinstance(t, ast.Name) and isinstance(arm, ast.Name) and arm.id != t.id:
+                    pairs.setdefault(t.id, set()).add((arm.id, a))
+                elif isinstance(t, (ast.Tuple, ast.List)) and isinstance(arm, (ast.Tuple, ast.List)) and len(arm.elts) == len(t.elts):
+                    for tt, vv in zip(t.elts, arm.elts):
+                        if isinstance(tt, ast.Name) and isinstance(vv, ast.Name) and vv.id != tt.id:
+                            pairs.setdefault(tt.id, set()).add((vv.id, a))
+        if not pairs:
+            continue
+        # evidence that a name holds an array (not a number): it is indexed, transposed, conjugated, multiplied as a matrix, reshaped ..
+        arrayish = set()
+        for x in ast.walk(fi.node):
+            if isinstance(x, ast.Subscript) and isinstance(x.value, ast.Name):
+                arrayish.add(x.value.id)
+            elif isinstance(x, ast.Attribute) and isinstance(x.value, ast.Name) and x.attr in ("T", "conj", "shape", "reshape", "real", "imag", "ndim", "astype", "copy", "flatten", "ravel", "dtype"):
+                arrayish.add(x.value.id)
+            elif isinstance(x, ast.BinOp) and isinstance(x.op, ast.MatMult):
+                for y in (x.left, x.right):
+                    if isinstance(y, ast.Name):
+                        arrayish.add(y.id)
+        effects = []        # (name, node, text)
+        for x in ast.walk(fi.node):
+            if isinstance(x, ast.AugAssign) and isinstance(x.target, ast.Name):
+                effects.append((x.target.id, x, f"`{astq.src(x, 40)}`"))
+            elif isinstance(x, ast.Call):
+                for k in x.keywords:
+                    if k.arg == "out" and isinstance(k.value, ast.Name):
+                        effects.append((k.value.id, x, f"`{astq.src(x, 40)}` (out=)"))
+            elif isinstance(x, ast.Assign):
+                for t in x.targets:
+                    if isinstance(t, ast.Subscript) and isinstance(t.value, ast.Name):
+                        if isinstance(x.value, ast.Subscript) and isinstance(x.value.value, ast.Name) and astq.dump(x.value.slice) == astq.dump(t.slice):
+                            continue        # b[i] = a[i]: with b being a, the element keeps its value
+                        effects.append((t.value.id, x, f"store into `{astq.src(t, 30)}`"))
+        for nm, node, txt in effects:
+            partners = set(o for o, a in pairs.get(nm, ())) | {b for b, ps in pairs.items() if any(o == nm for o, a in ps)}
+            for other in sorted(partners):
+                if not ({nm, other} & arrayish):
+                    continue
+                # the pair must have been made before the effect, and the other name be used at or after it
+                made = [a for o, a in pairs.get(nm, ()) if o == other] + [a for o, a in pairs.get(other, ()) if o == nm]
+                if not any(a.lineno <= node.lineno for a in made):
+                    continue
+                # a re-binding of either name between the pairing and the effect ends the sharing
+                rebound = any(isinstance(r, ast.Assign) and any(isinstance(t, ast.Name) and t.id in (nm, other) for t in r.targets) and
+                              max(a.lineno for a in made) < r.lineno < node.lineno for r in ast.walk(fi.node))
+                if rebound:
+                    continue
+                later = [y for y in ast.walk(fi.node) if isinstance(y, ast.Name) and y.id == other and getattr(y, "lineno", 0) >= node.lineno and not any(y is z for z in ast.walk(node))]
+                if not later:
+                    continue
+                n += 1
+                twice = any(e_nm == other and e_node is not node for e_nm, e_node, _ in effects)
+                run.ob(rule, fi.qual, f"`{nm}` and `{other}` may be one object", False,
+                       f"{txt} works in place; `{nm}` is `{other}` itself on the path of `{astq.src(made[0], 50)}`, so `{other}` changes as well" +
+                       (" - and it is operated on in place too: the operation is applied twice to the same array" if twice else " and is read afterwards"),
+                       witness=f"{nm}~{other}", file=f, node=node)
+                break
+    if not n:
+        run.ob(rule, quals[0] if quals else "-", "in-place operations on shared locals", True, "no in-place operation on a local that is also known by another name")
